@@ -221,3 +221,261 @@ async fn announcement_from_a_peer_without_fetch_url_leaves_other_peers_queues_al
             .get_fetching_block_count()
     )); }
 }
+
+/// C02: no value hides in the outputs of an NFT-creating transaction — the transaction the wallet builds validates, the same
+/// transaction with one more output, a Bound slip of 10^6 SAITO, re-signed by its sender, does not (Bound amounts count as
+/// zero in the in/out comparison; a trailing Bound slip is later rebroadcast as a spendable slip of its face amount) —
+/// scenario of an independent audit
+#[tokio::test]
+#[serial_test::serial]
+async fn nft_creation_cannot_carry_an_extra_bound_output() {
+    use crate::core::util::test::node_tester::test::NodeTester;
+    use crate::core::consensus::slip::{Slip, SlipType};
+    use crate::core::consensus::transaction::TransactionType;
+    use crate::core::defs::NOLAN_PER_SAITO;
+    use crate::core::util::crypto::generate_keys;
+    use crate::core::defs::PrintForLog;
+    let genesis_period: u64 = 10;
+    NodeTester::delete_data().await.unwrap();
+    let mut tester = NodeTester::new(genesis_period, None, None);
+    let public_key = tester.get_public_key().await;
+    tester.set_issuance(vec![(public_key.to_base58(), 100_000 * NOLAN_PER_SAITO), (public_key.to_base58(), 50_000 * NOLAN_PER_SAITO)]).await.unwrap();
+    tester.set_staking_enabled(false).await;
+    tester.init().await.unwrap();
+    tester.wait_till_block_id(1).await.unwrap();
+    let latest_block_id = tester.get_latest_block_id().await;
+    let (honest, forged) = {
+        let mut wallet = tester.consensus_thread.wallet_lock.write().await;
+        let private_key = wallet.private_key;
+        let slip = wallet.slips.values().find(|s| !s.spent && s.lc && wallet.unspent_slips.contains(&s.utxokey)).expect("an unspent wallet slip").clone();
+        let mut tx = wallet.create_bound_transaction(slip.amount, slip.block_id, slip.tx_ordinal, slip.slip_index as u64, 1_000, vec![], &public_key, None, latest_block_id, genesis_period, "replay".to_string())
+            .await.expect("the wallet builds the NFT transaction");
+        assert_eq!(tx.transaction_type, TransactionType::Bound);
+        tx.sign(&private_key);
+        tx.generate(&public_key, 0, 0);
+        let honest = tx.clone();
+        let mut extra = Slip::default();
+        extra.public_key = generate_keys().0;
+        extra.amount = 1_000_000 * NOLAN_PER_SAITO;
+        extra.slip_type = SlipType::Bound;
+        tx.add_to_slip(extra);
+        tx.sign(&private_key);
+        tx.generate(&public_key, 0, 0);
+        (honest, tx)
+    };
+    let blockchain = tester.consensus_thread.blockchain_lock.read().await;
+    assert!(honest.validate(&blockchain.utxoset, &blockchain, true), "harness: the NFT transaction the wallet builds validates");
+    if forged.validate(&blockchain.utxoset, &blockchain, true) {
+        witness(format!("an NFT-creating transaction with {} outputs, the last one a Bound slip of {} nolan under a foreign key that nothing pays for (the wallet's own transaction has {} outputs), signed by its sender, is accepted by Transaction::validate: total_in {} total_out {}",
+            forged.to.len(), forged.to.last().unwrap().amount, honest.to.len(), forged.total_in, forged.total_out));
+    }
+}
+
+/// C02: the fee an NFT (Bound) transaction pays is booked in the block that carries it — the supply the ledger accounts for stays
+/// what was issued — scenario of an independent audit
+#[tokio::test]
+#[serial_test::serial]
+async fn fee_of_an_nft_transaction_is_not_lost() {
+    #[allow(unused_imports)] use crate::core::defs::PrintForLog;
+    #[allow(unused_imports)] use crate::core::util::test::node_tester::test::NodeTester;
+    #[allow(unused_imports)] use crate::core::consensus::slip::SlipType;
+    #[allow(unused_imports)] use crate::core::defs::NOLAN_PER_SAITO;
+    #[allow(unused_imports)] use crate::core::consensus::transaction::Transaction;
+    #[allow(unused_imports)] use crate::core::consensus::block::Block;
+    #[allow(unused_imports)] use std::ops::Deref;
+    #[allow(unused_imports)] use crate::core::util::crypto::generate_keys;
+    #[allow(unused_imports)] use ahash::AHashMap;
+    #[allow(unused_imports)] use crate::core::consensus::wallet::Wallet;
+    use crate::core::consensus::blockchain::Blockchain;
+    use crate::core::consensus::slip::Slip;
+    use crate::core::consensus::transaction::TransactionType;
+    use futures::FutureExt;
+
+    // the quantity the property talks about, in unbounded (u128) arithmetic
+    fn audit_supply(blockchain: &Blockchain, genesis_period: u64) -> u128 {
+        let latest = blockchain.get_latest_block().expect("a latest block");
+        let mut supply: u128 = 0;
+        for (key, spendable) in blockchain.utxoset.iter() {
+            if !*spendable {
+                continue;
+            }
+            let slip = Slip::parse_slip_from_utxokey(key).unwrap();
+            if slip.slip_type == SlipType::Bound {
+                continue;
+            }
+            if slip.block_id < latest.id.saturating_sub(genesis_period) {
+                continue;
+            }
+            supply += slip.amount as u128;
+        }
+        supply
+            + latest.treasury as u128
+            + latest.graveyard as u128
+            + latest.previous_block_unpaid as u128
+            + latest.total_fees as u128
+    }
+
+    const FEE: u64 = 5_000;
+    const DEPOSIT: u64 = 1_000;
+    let genesis_period: u64 = 10;
+
+    NodeTester::delete_data().await.unwrap();
+    let mut tester = NodeTester::new(genesis_period, None, None);
+    let public_key = tester.get_public_key().await;
+    let private_key = tester.get_private_key().await;
+    let issuance = vec![
+        (public_key.to_base58(), 100_000 * NOLAN_PER_SAITO),
+        (public_key.to_base58(), 50_000 * NOLAN_PER_SAITO),
+        (public_key.to_base58(), 25_000 * NOLAN_PER_SAITO),
+    ];
+    tester.set_issuance(issuance).await.unwrap();
+    tester.set_staking_enabled(false).await;
+    tester.init().await.unwrap();
+    tester.wait_till_block_id(1).await.unwrap();
+
+    let issued: u128 = {
+        let blockchain = tester.consensus_thread.blockchain_lock.read().await;
+        audit_supply(&blockchain, genesis_period)
+    };
+    assert_eq!(
+        issued,
+        175_000u128 * NOLAN_PER_SAITO as u128,
+        "setup: the genesis block issues 175000 SAITO"
+    );
+
+    // control 1: a Normal transaction paying the same fee keeps the supply
+    let tx = tester
+        .create_transaction(10_000, FEE, public_key)
+        .await
+        .unwrap();
+    tester.add_transaction(tx).await;
+    tester.wait_till_block_id(2).await.unwrap();
+    {
+        let blockchain = tester.consensus_thread.blockchain_lock.read().await;
+        assert_eq!(
+            audit_supply(&blockchain, genesis_period),
+            issued,
+            "control: a Normal transaction with a {} nolan fee conserves the supply",
+            FEE
+        );
+        assert_eq!(blockchain.get_latest_block().unwrap().total_fees, FEE);
+    }
+
+    // builds an NFT-creating (Bound) transaction out of one unspent wallet slip; `fee` is taken off
+    // the change output
+    async fn audit_nft_tx(
+        tester: &NodeTester,
+        fee: u64,
+        deposit: u64,
+        genesis_period: u64,
+    ) -> crate::core::consensus::transaction::Transaction {
+        let latest_block_id = tester.get_latest_block_id().await;
+        let mut wallet = tester.consensus_thread.wallet_lock.write().await;
+        let public_key = wallet.public_key;
+        let private_key = wallet.private_key;
+        let slip = wallet
+            .slips
+            .values()
+            .find(|s| {
+                !s.spent
+                    && s.lc
+                    && s.slip_type != SlipType::Bound
+                    && s.amount > 1_000_000
+                    && wallet.unspent_slips.contains(&s.utxokey)
+            })
+            .expect("an unspent wallet slip")
+            .clone();
+        let mut tx = wallet
+            .create_bound_transaction(
+                slip.amount,
+                slip.block_id,
+                slip.tx_ordinal,
+                slip.slip_index as u64,
+                deposit,
+                vec![],
+                &public_key,
+                None,
+                latest_block_id,
+                genesis_period,
+                "audit".to_string(),
+            )
+            .await
+            .expect("the wallet builds the NFT transaction");
+        assert_eq!(tx.transaction_type, TransactionType::Bound);
+        assert_eq!(tx.from.len(), 1);
+        assert_eq!(tx.to.len(), 4, "bound, payload, bound, change");
+        assert_eq!(tx.to[3].amount, slip.amount - deposit);
+        tx.to[3].amount -= fee;
+        tx.sign(&private_key);
+        tx.generate(&public_key, 0, 0);
+        assert_eq!(tx.total_fees, fee);
+        tx
+    }
+
+    // control 2: the NFT transaction the wallet builds (no fee) keeps the supply
+    let honest_nft = audit_nft_tx(&tester, 0, DEPOSIT, genesis_period).await;
+    tester.add_transaction(honest_nft.clone()).await;
+    tester.wait_till_block_id(3).await.unwrap();
+    {
+        let blockchain = tester.consensus_thread.blockchain_lock.read().await;
+        let block = blockchain.get_latest_block().unwrap();
+        if !(block
+                .transactions
+                .iter()
+                .any(|t| t.signature == honest_nft.signature)) { witness(format!("setup: block 3 carries the fee-less NFT transaction")); }
+        assert_eq!(
+            audit_supply(&blockchain, genesis_period),
+            issued,
+            "control: an NFT transaction without a fee conserves the supply"
+        );
+    }
+
+    // the same transaction paying a fee of 5000 nolan
+    let paying_nft = audit_nft_tx(&tester, FEE, DEPOSIT, genesis_period).await;
+    tester.add_transaction(paying_nft.clone()).await;
+    // (the node's own wrapping check aborts the process once the block has been wound in)
+    let outcome = std::panic::AssertUnwindSafe(tester.wait_till_block_id(4))
+        .catch_unwind()
+        .await;
+    let node_aborted = outcome.is_err();
+
+    let blockchain = tester.consensus_thread.blockchain_lock.read().await;
+    let block = blockchain
+        .blocks
+        .values()
+        .find(|b| {
+            b.transactions
+                .iter()
+                .any(|t| t.signature == paying_nft.signature)
+        })
+        .expect("setup: a block carrying the fee-paying NFT transaction was produced");
+    assert_eq!(block.id, 4);
+    let payload = block
+        .transactions
+        .iter()
+        .find(|t| t.signature == paying_nft.signature)
+        .unwrap()
+        .to[1]
+        .clone();
+    assert_eq!(
+        blockchain.utxoset.get(&payload.utxoset_key),
+        Some(&true),
+        "setup: block 4 passed Block::validate and was wound into the ledger (its outputs are spendable)"
+    );
+    assert_eq!(blockchain.get_latest_block_id(), 4);
+
+    let after = audit_supply(&blockchain, genesis_period);
+    assert_eq!(
+        after,
+        issued,
+        "block 4 carries a Bound (NFT) transaction that consumes {} nolan more than it pays out; the block validated and was wound in, but the {} nolan are counted nowhere (block.total_fees = {}, total_fees_new = {}): spendable outputs + treasury + graveyard + unpaid + tip fees = {} instead of the {} issued, {} nolan are lost (node aborted in check_total_supply: {})",
+        FEE,
+        FEE,
+        block.total_fees,
+        block.total_fees_new,
+        after,
+        issued,
+        issued - after,
+        node_aborted
+    );
+}
